@@ -1133,11 +1133,46 @@ func ruleLatch(c *Ctx, rule string) {
 	c.check(okRm, rule, "remove: latch re-armed exactly when the last tunnel leaves", posOf(w, rm), "delete; if len(chans) == 0 { avail = make(chan) }", "the latch is not re-made exactly when the registry becomes empty (after the delete, under the mutex): Ready/WaitForReady would keep reporting ready with no tunnel, or a later add would close a closed channel")
 	// remove deletes exactly the matching entry and returns its key
 	okDel := false
+	// the comparison selects with the right polarity: the deletion (or, where the search lives in a predicate literal or an
+	// index helper, the return that reports a hit) happens where entry.ch == ch is known to HOLD
+	matchHolds := func(point ssa.Instruction) bool {
+		for _, f := range factsAt(point) {
+			if x, op, y, ok := cmpFact(f); ok && op == token.EQL {
+				if _, ch := fieldChain(x); len(ch) == 1 && origin(y) == ssa.Value(rm.Params[1]) {
+					return true
+				}
+			}
+		}
+		return false
+	}
 	for _, scan := range append([]*ssa.Function{rm}, rm.AnonFuncs...) { // incl. a predicate literal given to slices.IndexFunc
 		allInstrs(scan, func(in ssa.Instruction) {
 			if b, ok := in.(*ssa.BinOp); ok && b.Op == token.EQL {
 				if _, ch := fieldChain(b.X); len(ch) == 1 && origin(b.Y) == ssa.Value(rm.Params[1]) {
-					okDel = true
+					g := b.Parent()
+					if g == rm {
+						for _, d := range storesToField(rm, chans) {
+							if d.Parent() == rm && matchHolds(d) {
+								okDel = true
+							}
+						}
+						return
+					}
+					for _, ret := range returnsOf(g) {
+						if len(ret.Results) == 0 {
+							continue
+						}
+						r0 := stripConv(ret.Results[0])
+						if k, isK := constInt(r0); isK && k < 0 {
+							continue
+						}
+						if isConstBool(r0, false) {
+							continue
+						}
+						if matchHolds(ret) || r0 == ssa.Value(b) {
+							okDel = true // (a predicate that returns the comparison itself reports a hit exactly when it holds)
+						}
+					}
 				}
 			}
 		})
@@ -1235,6 +1270,20 @@ func ruleLatch(c *Ctx, rule string) {
 		okW = hasCtx && hasLatch
 	}
 	c.check(okW, rule, "waitForReady: snapshot under the mutex, wait outside it with a context alternative", posOf(w, wfr), "avail read under mu; select { <-avail; <-ctx.Done() }", "waitForReady does not read the latch under the mutex and wait outside it with a ctx.Done() case")
+	// ... and it reports "ready" (nil) only after receiving from the latch: every other return is a provably non-nil error
+	if sel != nil && wfr.Signature.Results().Len() == 1 && isErrorType(wfr.Signature.Results().At(0).Type()) {
+		okNil, nRet := true, 0
+		forEachReturnValue(wfr, 0, func(v ssa.Value, at ssa.Instruction) {
+			nRet++
+			if recvDominates(at, func(ch ssa.Value) bool { return isFieldLoad(ch, avail) || isFieldLoad(origin(ch), avail) }) {
+				return
+			}
+			if nn, _ := nonNilErrorPhiAware(v, at); !nn {
+				okNil = false
+			}
+		})
+		c.check(okNil && nRet >= 2, rule, "waitForReady: ready only after the latch", posOf(w, wfr), "nil only after <-avail; ctx.Err() after <-ctx.Done()", "waitForReady can return nil without having received from the latch (the context alternative reports success): a caller waiting for a tunnel is told one is ready when its context merely ended")
+	}
 	okR := false
 	forEachReturnValue(rdy, 0, func(v ssa.Value, at ssa.Instruction) {
 		if b, ok := v.(*ssa.BinOp); ok && b.Op == token.GTR {
